@@ -347,13 +347,33 @@ func (ex *Exec) callPureB(fn *ssa.Function, args []Val, bindings []Val, st *Stat
 func (ex *Exec) mergeValues(base int, rs []Result, sig *types.Signature, dst *State) Val {
 	for _, r := range rs {
 		for _, d := range r.st.defs {
-			dst.AssumeDef(d)
+			if !d.hasBV { // facts mentioning bound variables of an enclosing quantifier are dropped (sound)
+				dst.AssumeDef(d)
+			}
 		}
 	}
-	if len(rs) == 1 {
-		return rs[0].ret
-	}
 	n := sig.Results().Len()
+	if n == 0 {
+		return nil
+	}
+	if len(rs) == 1 {
+		// executor-level results refer to objects of the scratch state: convert them to terms
+		conv := func(v Val, t types.Type) Val {
+			switch v.(type) {
+			case *SliceV, *ByteSlV, *MapV, *PtrV:
+				return ex.asTerm(rs[0].st, v, t)
+			}
+			return v
+		}
+		if n == 1 {
+			return conv(rs[0].ret, sig.Results().At(0).Type())
+		}
+		tv := &TupleV{}
+		for i, el := range rs[0].ret.(*TupleV).Elems {
+			tv.Elems = append(tv.Elems, conv(el, sig.Results().At(i).Type()))
+		}
+		return tv
+	}
 	toTerms := func(r Result) []*Term {
 		var out []*Term
 		if n == 1 {
